@@ -76,8 +76,10 @@ class Ctx:
         self.outcomes[o] += 1
         if o == "timeout":
             self.inconclusive.append("watchdog fired on op=%s" % req.get("op"))
+            self.harness_limit_in_case = "watchdog"
         elif o == "drv_err":
             self.inconclusive.append("driver error on op=%s: %s" % (req.get("op"), str(r.get("drv_err"))[:300]))
+            self.harness_limit_in_case = "driver error"
         elif o == "panic" and "harness/src" in str(r["panic"].get("file", "")) and req.get("op") != "selftest_panic":
             self.inconclusive.append("panic inside the driver itself: %s" % (r["panic"],))
             self.outcomes["drv_panic"] += 1
@@ -108,12 +110,18 @@ class Ctx:
 
     def viol(self, key, detail=None):
         """Oracle false on an observed execution. `key` names the symptom class (no line numbers, no raw inputs)."""
+        if getattr(self, "harness_limit_in_case", None):
+            # a wall-clock watchdog fired / the driver itself erred while THIS case was being executed: whatever the oracle concludes from
+            # the missing answer is not evidence about the library (three-valued verdicts: this is "inconclusive", recorded as such in call())
+            self.info["verdict withheld because a harness limit was hit in the same case (%s)" % self.harness_limit_in_case] += 1
+            return
         self.viol_counts[key] += 1
         lst = self.viol_cases.setdefault(key, [])
         if len(lst) < MAX_CASES_PER_KEY:
             lst.append({"case": self.cur_case, "detail": detail})
 
     def begin(self, case):
+        self.harness_limit_in_case = None
         self.cur_case = case
         self.cur_nontrivial = False
         self.cases += 1
